@@ -45,6 +45,7 @@ VARIANTS = {
     "rydberg_level=70": dict(rydberg_level=70),
     "max_seq=300": dict(max_seq=300),
     "bottom=-1": dict(bottom_det=-1.0, total_bottom_det=-2.0),
+    "renamed": dict(),  # identical in every parameter: the switch must succeed and change nothing
 }
 
 ALPHA = [
@@ -72,7 +73,26 @@ LONG = [
 PREFIX = [("declare", "g", "rydberg_global"), ("declare", "l", "raman_local", "q0"), ("config_dmm", "m2", "dmm_0")]
 
 
-def spec_of(variant_names):
+GLp = [("declare", "g", "rydberg_global"), ("declare", "l", "raman_local", "q0")]
+# programs on other prefixes: SLM mask (default / positional / keyword DMM id; before / after the first channel and pulse; Ising,
+# XY and undetermined mode), magnetic field, measurement, variables
+AUX = [
+    ([("slm", ["q0"]), ("declare", "g", "rydberg_global")], [("add", A.C52, "g"), ("add", A.C52P, "g")]),
+    ([("declare", "g", "rydberg_global"), ("slm", ["q1"], "dmm_0")], [("add", A.C52, "g")]),
+    ([("declare", "g", "rydberg_global"), ("add", A.C52, "g"), ("raw", "config_slm_mask", [["q0", "q2"]], {"dmm_id": "dmm_1"})],
+     [("add", A.C52P, "g")]),
+    ([("slm", ["q0"]), ("declare", "m", "mw_global")], [("add", A.C52, "m"), ("delay", 52, "m"), ("add", A.C52P, "m")]),
+    ([("magfield", 1.0, 2.0, 2.0), ("declare", "m", "mw_global"), ("slm", ["q1"], "dmm_0")], [("add", A.C52, "m")]),
+    (GLp, [("add", A.C52, "g"), ("measure", "ground-rydberg")]),
+    (GLp + [("declare_var", "x", "int")], [("delay_v", "x", "g"), ("add_v", "x", 52, "g"), ("add", A.C52P, "l")]),
+    ([("slm", ["q0"])], []),
+    ([("config_dmm", "m2", "dmm_0"), ("slm", ["q0"], "dmm_1"), ("declare", "g", "rydberg_global")],
+     [("add", A.C52, "g"), ("add_dmm", ["C", 52, -1.5], "dmm_0")]),
+    (GLp + [("declare_var", "x", "int"), ("slm", ["q2"])], [("add_v", "x", 52, "g")]),
+]
+
+
+def spec_of(variant_names, prefix=None):
     s = copy.deepcopy(BASE)
     for v in variant_names:
         for k, val in VARIANTS[v].items():
@@ -81,7 +101,7 @@ def spec_of(variant_names):
             else:
                 s[k] = copy.deepcopy(val)
     s["name"] = "+".join(variant_names) or "base"
-    s["prefix"] = PREFIX
+    s["prefix"] = PREFIX if prefix is None else prefix
     return s
 
 
@@ -109,8 +129,14 @@ def cases(tier):
             for strict in (True, False):
                 out.append(("dev", src, dst, pi, strict))
     for pi in range(len(progs)):
-        for kind in ("equal", "moved", "reordered"):
+        for kind in ("equal", "moved", "reordered", "mappable"):
             out.append(("reg", pi, kind))
+    for ai in range(len(AUX)):
+        for v in names:
+            for strict in (True, False):
+                out.append(("dev", (), (v,), -1 - ai, strict))
+        for kind in ("equal", "moved", "reordered", "mappable"):
+            out.append(("reg", -1 - ai, kind))
     return out
 
 
@@ -142,10 +168,11 @@ def run_case(case):
         progs = _PROGS["p"]
         if case[0] == "dev":
             _, src, dst, pi, strict = case
-            ws, wd = World(spec_of(src)), World(spec_of(dst))
-            seq = ws.fresh()
+            prefix, ops = (None, progs[pi]) if pi >= 0 else AUX[-1 - pi]
+            ws, wd = World(spec_of(src, prefix)), World(spec_of(dst, prefix))
             try:
-                for op in progs[pi]:
+                seq = ws.fresh()
+                for op in ops:
                     apply(seq, op, ws)
             except Exception:
                 return [("@program-invalid-on-source", "")]
@@ -156,6 +183,9 @@ def run_case(case):
             except Exception as e:
                 if snapshot.snap(seq, True).key(with_calls=True) != k0:
                     return [("C18:failed-switch-changed-the-original", f"{case}")]
+                if dst == ("renamed",) and not src:
+                    # every channel has an identical match: "replays the same instructions on matching channels"
+                    return [(f"C18:switch-to-identical-device-raises:{type(e).__name__}", f"program {pi}: {e!r}"[:250])]
                 return [("@refused:" + ("strict" if strict else "loose"), "")]
             out = []
             if snapshot.snap(seq, True).key(with_calls=True) != k0:
@@ -166,6 +196,8 @@ def run_case(case):
                 s0n = snapshot.snap(seq, False)
                 for sx in (s0n, s1):  # idle time may be partitioned differently into consecutive delays (weakest reading)
                     for c in sx.channels.values():
+                        if c.is_dmm:  # DMM channel names are derived from the device id they were matched to, not user-chosen
+                            c.name = c.ch_id = "dmm"
                         merged = []
                         for sl in c.slots:
                             if merged and sl.kind == "delay" and merged[-1].kind == "delay" and merged[-1].tf == sl.ti:
@@ -176,12 +208,14 @@ def run_case(case):
                 if s0n.key(ordered_channels=False) != s1.key(ordered_channels=False):
                     d = _diff(s0n, s1)
                     if d and d.startswith("flag:"):
-                        flags = set(d[5:].split(",")) - {"maxdur"}
+                        flags = set(d[5:].split(",")) - {"maxdur", "slm_dmm"}  # slm_dmm: derived DMM name, see above
                         if not flags:
                             d = None
                     if d:
                         out.append((f"C18:strict-switch-changed-the-sequence:{diffkey}:{d}",
-                                    f"program {pi} {progs[pi]}: duration {seq.get_duration()} -> {new.get_duration()}"[:300]))
+                                    f"program {pi} {ops}: {d}"[:300]))
+                if s0.to_build != snapshot.snap(new, True).to_build and pi < 0:
+                    out.append((f"C18:strict-switch-changed-the-stored-calls:{diffkey}", f"program {pi}"))
                 return out + [("@strict-returned", "")]
             # non-strict: every limit of the new device, and a well-formed timeline
             for name, ch in s1.channels.items():
@@ -201,21 +235,24 @@ def run_case(case):
                 for prob in tiling_problems(ch, co):
                     out.append((f"C18:non-strict-switch-malformed-timeline:{diffkey}", f"program {pi}: {name}: {prob}"))
             mx = new.device.max_sequence_duration
-            if mx is not None and new.get_duration() > mx:
+            if mx is not None and not new.is_parametrized() and new.get_duration() > mx:
                 out.append((f"C18:non-strict-switch-over-max-duration:{diffkey}", f"program {pi}: {new.get_duration()} > {mx}"))
             return out + [("@loose-returned", "")]
         # switch_register
         _, pi, kind = case
         from pulser import Register
 
-        w = World(spec_of(()))
-        seq = w.fresh()
+        prefix, ops = (None, progs[pi]) if pi >= 0 else AUX[-1 - pi]
+        w = World(spec_of((), prefix))
         try:
-            for op in progs[pi]:
+            seq = w.fresh()
+            for op in ops:
                 apply(seq, op, w)
         except Exception:
             return [("@program-invalid-on-source", "")]
         coords = {"q0": (0.0, 0.0), "q1": (8.0, 0.0), "q2": (3.0, 9.0)}
+        if kind == "mappable":
+            return switch_to_mappable(seq, w, coords, pi, ops)
         if kind == "moved":
             coords = {k: (v[0] + 1.0, v[1] * 2 + 5.0) for k, v in coords.items()}
         elif kind == "reordered":
@@ -233,8 +270,44 @@ def run_case(case):
         if kind == "reordered":
             s0.flags["qids"] = s1.flags["qids"] = ()
         if s0.key() != s1.key():
-            return [(f"C18:switch-register-changed-the-sequence:{kind}:{_diff(s0, s1)}", f"program {pi} {progs[pi]}"[:250])]
+            return [(f"C18:switch-register-changed-the-sequence:{kind}:{_diff(s0, s1)}", f"program {pi} {ops}"[:250])]
         return [("@register-switched", "")]
+
+
+def switch_to_mappable(seq, w, coords, pi, ops):
+    """switch_register to a MappableRegister with the same qubit ids: either refused, or every stored instruction is kept
+    and building with the traps at the original positions gives the original timeline."""
+    from pulser.register.mappable_reg import MappableRegister
+    from pulser.register.register_layout import RegisterLayout
+
+    L = RegisterLayout(list(coords.values()) + [(20.0, 20.0), (-8.0, 4.0)], slug="C18L")
+    ids = L.get_traps_from_coordinates(*coords.values())
+    s0 = snapshot.snap(seq, True)
+    try:
+        new = seq.switch_register(MappableRegister(L, *coords))
+    except Exception as e:
+        return [("@register-switch-refused:mappable", "")]
+    n0 = [c[0] for c in s0.calls + s0.to_build]
+    s1 = snapshot.snap(new, True)
+    n1 = [c[0] for c in s1.calls + s1.to_build]
+    if n0 != n1:
+        return [("C18:switch-register-dropped-instructions:mappable", f"program {pi}: {n0} -> {n1}"[:300])]
+    vals = {n: [60] * v.size for n, v in seq.declared_variables.items()}
+    try:
+        b0 = seq.build(**vals)
+    except Exception:
+        return [("@register-switched", "")]
+    try:
+        b1 = new.build(qubits=dict(zip(coords, ids)), **vals)
+    except Exception as e:
+        return [(f"C18:switched-sequence-does-not-build:mappable:{type(e).__name__}", f"program {pi}: {e}"[:250])]
+    k0, k1 = snapshot.snap(b0, False), snapshot.snap(b1, False)
+    for c in list(k0.channels.values()) + list(k1.channels.values()):
+        if c.is_dmm:
+            c.detmap = None
+    if k0.key() != k1.key():
+        return [(f"C18:switch-register-changed-the-sequence:mappable:{_diff(k0, k1)}", f"program {pi} {ops}"[:250])]
+    return [("@register-switched", "")]
 
 
 def run(tier, seed):
